@@ -1,0 +1,76 @@
+//go:build verif
+
+package sml
+
+import (
+	"reflect"
+	"runtime"
+	"strings"
+)
+
+// VerifToken is an exported copy of a lexer token.
+type VerifToken struct {
+	Typ  string
+	Val  string
+	Line int
+	Col  int
+}
+
+// VerifStep is one invocation of a lexer state function: the state entered
+// and the lexer position when it was entered.
+type VerifStep struct {
+	State string
+	Pos   int
+	Start int
+}
+
+var verifTokenNames = map[tokenType]string{
+	tokenTypeEOF: "EOF", tokenTypeError: "Error", tokenTypeComment: "Comment", tokenTypeMessageEnd: "MessageEnd",
+	tokenTypeStreamFunction: "StreamFunction", tokenTypeWaitBit: "WaitBit", tokenTypeDirection: "Direction",
+	tokenTypeMessageName: "MessageName", tokenTypeLeftAngleBracket: "LAB", tokenTypeRightAngleBracket: "RAB",
+	tokenTypeDataItemType: "DataItemType", tokenTypeDataItemSize: "Size", tokenTypeNumber: "Number",
+	tokenTypeBool: "Bool", tokenTypeVariable: "Variable", tokenTypeQuotedString: "QuotedString",
+	tokenTypeEllipsis: "Ellipsis",
+}
+
+// verifStepHook, when set, is called before every state function invocation.
+var verifStepHook func(l *lexer)
+
+func verifLexStep(l *lexer) {
+	if verifStepHook != nil {
+		verifStepHook(l)
+	}
+}
+
+func verifStateName(f stateFn) string {
+	if f == nil {
+		return "nil"
+	}
+	n := runtime.FuncForPC(reflect.ValueOf(f).Pointer()).Name()
+	if i := strings.LastIndex(n, "."); i >= 0 {
+		n = n[i+1:]
+	}
+	return n
+}
+
+// VerifLex runs the lexer alone over input, starting in the header state
+// (or in the message-text state when textState is set), and returns every
+// token up to and including the first EOF, and every state-function step.
+// It must not be called concurrently (the step hook is a package variable).
+func VerifLex(input string, textState bool) (tokens []VerifToken, steps []VerifStep) {
+	l := lex(input)
+	if textState {
+		l.state = lexMessageText
+	}
+	verifStepHook = func(l *lexer) {
+		steps = append(steps, VerifStep{verifStateName(l.state), l.pos, l.start})
+	}
+	defer func() { verifStepHook = nil }()
+	for {
+		t := l.nextToken()
+		tokens = append(tokens, VerifToken{verifTokenNames[t.typ], t.val, t.line, t.col})
+		if t.typ == tokenTypeEOF {
+			return tokens, steps
+		}
+	}
+}
